@@ -187,7 +187,7 @@ def overSem (o : AOp) (a : V) : Sem :=
   | .int n => .val (.int n)
   | .ints xs => if xs.isEmpty then .unm else .val (.int (foldOp o xs))
   | .mat rows => if rect rows then .val (.ints (colFold o rows)) else .unm
-  | .str cs => if cs.isEmpty then .unm else .err
+  | .str cs => if cs.length < 2 then .unm else .err
   | _ => .unm
 
 def scanSem (o : AOp) (a : V) : Sem :=
@@ -195,15 +195,23 @@ def scanSem (o : AOp) (a : V) : Sem :=
   | .plus | .times =>
     (match a with
      | .ints xs => if xs.isEmpty then .unm else .val (.ints (scanOp o xs))
-     | .str cs => if cs.isEmpty then .unm else .err
+     | .str cs => if cs.length < 2 then .unm else .err
      | _ => .unm)
   | _ => .unm
+
+/-- the interpreted Over returns the only element of a one-element list as it is: for a
+    one-row matrix that is the row itself, a view of the argument (the compiled reduce
+    allocates) -/
+def overPlace (a : V) (s : Sem) : Sem :=
+  match a, s with
+  | .mat [_], .val _ => .view .l (.row 0)
+  | _, s => s
 
 def monadSem (op : MOp) (a : V) : Sem :=
   match op with
   | .rev =>
     (match a with
-     | .int _ => .err
+     | .int n => .val (.int n)          -- an atom is returned unchanged
      | .str cs => if cs.isEmpty then .unm else .val (.str cs.reverse)
      | .ints xs => if xs.isEmpty then .unm else .view .l .rev
      | .mat rows => if rect rows then .view .l .rev else .unm
@@ -215,7 +223,7 @@ def monadSem (op : MOp) (a : V) : Sem :=
      | .ints xs => .val (.int xs.length)
      | .mat rows => if rect rows then .val (.int rows.length) else .unm
      | _ => .unm)
-  | .over o => overSem o a
+  | .over o => overPlace a (overSem o a)
   | .scan o => scanSem o a
 
 def allLt (idxs : List Int) (n : Nat) : Bool := idxs.all (fun i => decide (i < n))
@@ -313,7 +321,7 @@ def dyadSem (op : DOp) (a b : V) : Sem :=
         | .ints xs => if xs.isEmpty then .unm else
             if n.natAbs ≤ xs.length then .view .r (takeSlice n xs.length) else .val (.ints (takeCyc 0 n xs))
         | .mat rows => if !rect rows then .unm else
-            if n.natAbs ≤ rows.length then .view .r (takeSlice n rows.length) else .unm
+            if n.natAbs ≤ rows.length then .view .r (takeSlice n rows.length) else .val (.mat (takeCyc [] n rows))
         | _ => .unm)
      | _ => .unm)
   | .drop =>
@@ -495,7 +503,7 @@ instance (c : Cfg) : Decidable c.Good := by unfold Cfg.Good; infer_instance
 structure Frame (β : Type) where
   mod : Option QName            -- `some name`: a `KGModule` pushed by `.module(name)`
   binds : List (QName × β)      -- insertion order, as a Python dict
-deriving Repr
+deriving DecidableEq, Repr
 
 def bindGet {β : Type} : List (QName × β) → QName → Option β
   | [], _ => none
@@ -552,7 +560,7 @@ inductive Res (β : Type) where
   | ok (v : β)
   | err
   | unm
-deriving Repr
+deriving DecidableEq, Repr
 
 /-! ## `Ref`: no cache, arrays by value -/
 
@@ -584,7 +592,7 @@ namespace Ref
 structure S where
   frames : List (Frame RV)
   dheap : DHeap
-deriving Repr
+deriving DecidableEq, Repr
 
 def semToRes (a b : V) : Sem → Res RV
   | .err => .err
@@ -659,7 +667,7 @@ def depth : Nat := 4
 structure State where
   s : S
   module : Option Nat
-deriving Repr
+deriving DecidableEq, Repr
 
 def init : State := ⟨⟨[⟨none, []⟩], []⟩, none⟩
 
@@ -686,6 +694,14 @@ def run (parse : Parse) : State → List Text → State × List (Res RV)
     let (st1, r) := step parse st t
     let (st2, rs) := run parse st1 ts
     (st2, r :: rs)
+
+/-- what is observed of a history: after every statement its outcome and the whole variable
+    state (frames by value, dictionary heap, parse-time module) -/
+def trace (parse : Parse) : State → List Text → List (Res RV × State)
+  | _, [] => []
+  | st, t :: ts =>
+    let (st1, r) := step parse st t
+    (r, st1) :: trace parse st1 ts
 
 end Ref
 
@@ -912,9 +928,12 @@ def init : State := ⟨⟨[⟨none, []⟩], [], [], [], []⟩, none, []⟩
 def runModule (s : S) : Option QName → Res HV × S
   | some q =>
     (match evalVar s q with
-     | (.ok (.imm (.sym n)), s1) =>
-       (.ok (.imm .undef),
-        { s1 with frames := ⟨some n, []⟩ :: ⟨none, [(xName, .imm (.sym n))]⟩ :: s1.frames })
+     | (.ok hv, s1) =>
+       (match toV s1.heap hv with
+        | some (.sym n) =>
+          (.ok (.imm .undef),
+           { s1 with frames := ⟨some n, []⟩ :: ⟨none, [(xName, hv)]⟩ :: s1.frames })
+        | _ => (.unm, s1))
      | (_, s1) => (.unm, s1))
   | none => (.ok (.imm .undef), { s with frames := ⟨none, [(xName, .imm (.int 0))]⟩ :: s.frames })
 
@@ -922,45 +941,57 @@ def runModule (s : S) : Option QName → Res HV × S
 def key (cfg : Cfg) (st : State) (t : Text) : Text × Option Nat :=
   (t, if cfg.keyModule then st.module else none)
 
-/-- parse-cache lookup / fill: the tree, the parse-time module afterwards, the new state -/
+/-- a parse-cache miss: parse, store the array literals in the heap, remember the tree and
+    the module the parse ended in -/
+def fetchMiss (cfg : Cfg) (parse : Parse) (st : State) (t : Text) : Stmt HLit × State :=
+  let p := parse t st.module
+  let i := internS p.1 st.s.heap
+  (i.1, ⟨{ st.s with heap := i.2 }, p.2,
+         if cfg.caches then (key cfg st t, (i.1, p.2)) :: st.pcache else st.pcache⟩)
+
+/-- parse-cache lookup / fill: the tree, and the state with the parse-time module afterwards -/
 def fetch (cfg : Cfg) (parse : Parse) (st : State) (t : Text) : Stmt HLit × State :=
-  let miss : Stmt HLit × State :=
-    let (tree, m') := parse t st.module
-    let (itree, h') := internS tree st.s.heap
-    let s' := { st.s with heap := h' }
-    (itree, ⟨s', m', if cfg.caches then (key cfg st t, (itree, m')) :: st.pcache else st.pcache⟩)
   if cfg.caches then
     match st.pcache.lookup (key cfg st t) with
     | some (itree, m') => (itree, { st with module := if cfg.replayModule then m' else st.module })
-    | none => miss
-  else miss
+    | none => fetchMiss cfg parse st t
+  else fetchMiss cfg parse st t
+
+/-- `compiled = self._compiled_cache.get(cache_key)` … `self._compiled_cache[cache_key] = compiled or False` -/
+def topCode (cfg : Cfg) (k : Text × Option Nat) (s : S) (e : Expr HLit) : Option CExpr × S :=
+  if cfg.caches then
+    match s.ccache.lookup k with
+    | some c => (c, s)
+    | none => let c := compileNow cfg s e; (c, { s with ccache := (k, c) :: s.ccache })
+  else (compileNow cfg s e, s)
 
 /-- `__call__`'s own compiled path for a single expression, under `_compiled_cache` -/
 def topCompiled (cfg : Cfg) (k : Text × Option Nat) (s : S) (e : Expr HLit) : Option (HV × S) × S :=
-  let (c, s1) : Option CExpr × S :=
-    if cfg.caches then
-      match s.ccache.lookup k with
-      | some c => (c, s)
-      | none => let c := compileNow cfg s e; (c, { s with ccache := (k, c) :: s.ccache })
-    else (compileNow cfg s e, s)
-  match c with
+  let s1 := (topCode cfg k s e).2
+  match (topCode cfg k s e).1 with
   | some code =>
     (match runCode cfg s1 code with
-     | some v => (some (allocV s1 v), s1)
+     | some v =>
+       (match code, lookup s1.frames (code.vars.headD xName) with
+        | .var _, some hv => (some (hv, s1), s1)        -- `return _v0`: the operand itself, no copy
+        | _, _ => (some (allocV s1 v), s1))
      | none => (none, s1))
   | none => (none, s1)
 
 def depth : Nat := 4
 
+/-- a single expression: `__call__`'s compiled path, else the interpreter -/
+def exprStep (cfg : Cfg) (k : Text × Option Nat) (s : S) (e : Expr HLit) : Res HV × S :=
+  match topCompiled cfg k s e with
+  | (some (v, s'), _) => (.ok v, s')
+  | (none, s1) => evalN cfg depth e s1
+
 def step (cfg : Cfg) (parse : Parse) (st : State) (t : Text) : State × Res HV :=
   let k := key cfg st t
-  let (tree, st1) := fetch cfg parse st t
-  match tree with
-  | .expr e =>
-    (match topCompiled cfg k st1.s e with
-     | (some (v, s'), _) => ({ st1 with s := s' }, .ok v)
-     | (none, s1) => let (r, s') := evalN cfg depth e s1; ({ st1 with s := s' }, r))
-  | .module arg => let (r, s') := runModule st1.s arg; ({ st1 with s := s' }, r)
+  let f := fetch cfg parse st t
+  match f.1 with
+  | .expr e => let o := exprStep cfg k f.2.s e; ({ f.2 with s := o.2 }, o.1)
+  | .module arg => let o := runModule f.2.s arg; ({ f.2 with s := o.2 }, o.1)
 
 def run (cfg : Cfg) (parse : Parse) : State → List Text → State × List (Res HV)
   | st, [] => (st, [])
@@ -1026,6 +1057,17 @@ def loadFrames : List (Frame RV) → Heap → List (Frame HV) × Heap
 def load (r : Ref.State) : State :=
   let (fs, h) := loadFrames r.s.frames []
   ⟨⟨fs, h, r.s.dheap, [], []⟩, r.module, []⟩
+
+/-- the observation of one step of the heap machine: outcome and variable state, by value -/
+def stepObs (cfg : Cfg) (parse : Parse) (st : State) (t : Text) : State × (Res RV × Ref.State) :=
+  let (st1, r) := step cfg parse st t
+  (st1, (absRes st1.s.heap r, abs st1))
+
+def trace (cfg : Cfg) (parse : Parse) : State → List Text → List (Res RV × Ref.State)
+  | _, [] => []
+  | st, t :: ts =>
+    let (st1, o) := stepObs cfg parse st t
+    o :: trace cfg parse st1 ts
 
 end Interp
 
